@@ -81,13 +81,13 @@ def gen(ctx):
     for n in (1, 2, 3):
         for g in C.enum_graphs(n, C.ADMG_STATES_CYC + [("U",), ("U", "D>"), ("U", "B")]):
             i += 1
-            yield {"g": g, "fam": fams[i % 5], "src": "exh%d" % n}
+            yield {"g": g, "fam": fams[i % len(fams)], "src": "exh%d" % n}
     keep = 1.0      # all 46656 four-node graphs in both tiers
     for g in C.enum_graphs(4, C.ADMG_STATES):
         if keep < 1.0 and rng.random() > keep:
             continue
         i += 1
-        yield {"g": g, "fam": ("int", "bigint", "str", "tuple")[i % 4], "src": "exh4" if keep == 1.0 else "smp4"}
+        yield {"g": g, "fam": ("int", "bigint", "str", "tuple", "falsy")[i % 5], "src": "exh4" if keep == 1.0 else "smp4"}
     N = 4000 if tier == "quick" else 150000
     for j in range(N):
         n = rng.choice((5, 5, 5, 6)) if tier == "quick" else rng.choice((5, 5, 6, 6, 7))
@@ -113,7 +113,7 @@ def gen(ctx):
         if j % 3 == 0:
             g = C.shuffled_graph(rng, g)
         i += 1
-        yield {"g": g, "fam": fams[i % 5], "src": "rnd%d" % n}
+        yield {"g": g, "fam": fams[i % len(fams)], "src": "rnd%d" % n}
 
 
 def make_ancestral(g):
